@@ -17,7 +17,7 @@ RULE = ("task lists: EVERY list of <=L tasks over 8 concrete tasks of the three 
         "sampler's internal threshold; exact values: circuits x operators incl. X/Y terms vs psi^dagger M psi; binding: every list of <=3 tasks (two sharing ONE "
         "circuit object) x per-task maps. non-trivial = list mixing at least two task kinds / non-palindromic basis state")
 ASSUMPTIONS = ["sampling randomness scripted with default answers (basis states have a single outcome with p>1e-12)", "the runner records what it is asked to run through an overriding subclass that only logs and delegates"]
-BOUNDS = {"quick": {"list_len": 3}, "thorough": {"list_len": 4}}
+BOUNDS = {"quick": {"list_len": 3}, "thorough": {"list_len": 5}}
 
 
 def tasks_pool():
@@ -186,7 +186,7 @@ FUNCS = {"task_lists": list_case, "split": split_case, "shot_sweep": shots_case,
 
 def run(run):
     thorough = run.tier == "thorough"
-    L = 4 if thorough else 3
+    L = 5 if thorough else 3
     lists = [list(c) for k in range(0, L + 1) for c in itertools.product(range(8), repeat=k)]
     secs = [Section("task_lists", [{"tasks": l} for l in lists], list_case, horizon=120, desc="every task list of length <= %d over 8 tasks of the three kinds" % L),
             Section("split", [{"tasks": l} for l in lists if len(l) <= 3], split_case, desc="split_estimation_tasks_to_measure partitions positions in ascending order")]
